@@ -93,6 +93,7 @@ class C13(Prop):
             s = draw_solve(rng, b.P, "tau%d" % r, peer_mode=mode, allow_heuristic=(rng.random() < 0.3))
             if mode == "real":
                 s["peer"]["solver"] = "CLARABEL"
+                s["peer"]["force_solver"] = True
                 s["cfg"]["kwargs"] = {"solver": "CLARABEL"}
                 if s["cfg"].get("heuristic"):
                     s["cfg"]["eig"] = 0.05
